@@ -7,14 +7,7 @@
    The `pending` look-ahead buffer of Parser is modelled by reading the head of the
    remaining input without removing it. *)
 From JsonSyntax Require Import Base.Prelude Base.Value Base.Unicode.
-
-(* ---- input stream ---- *)
-Inductive sitem := SOk (c : N) (len : N) | SErr.       (* Result<DecodedChar, E> *)
-Definition cme := (N * N * N)%type.                    (* span start, span end, volume *)
-
-Record opts := { trunc : bool; inval : bool }.
-Definition strict := {| trunc := false; inval := false |}.
-Definition flexible := {| trunc := true; inval := true |}.
+From JsonSyntax Require Export Base.Source.
 
 Inductive perr :=
 | EStream (p : N)
